@@ -95,6 +95,7 @@ func c15Run(c *ev.Ctx) {
 				key = "indirect:in-memory"
 			}
 			detail = map[string]any{"symptom": sym, "detail": detail}
+			key += ":" + sym
 		}
 		t := hist
 		if len(t) > 40 {
@@ -370,8 +371,13 @@ func c15Run(c *ev.Ctx) {
 					return
 				}
 			}
-			// (b) writable loader
-			nh := structures.NewWritableFractalHeap(blockSize)
+			// (b) writable loader (the library constructs it with its default size of 64 KiB
+			// before loading, whatever the heap on disk uses: both ways here)
+			loaderSize := blockSize
+			if r.Bool() {
+				loaderSize = 64 * 1024
+			}
+			nh := structures.NewWritableFractalHeap(loaderSize)
 			if err := nh.LoadFromFile(mf, addr, sb); err != nil {
 				fail("persist:load-failed:"+regionKey()+rl(), err.Error())
 				return
